@@ -339,6 +339,14 @@ impl Session {
     fn get_msg_ctr(&mut self) -> u32 {
         let ctr = self.msg_ctr;
         self.msg_ctr += 1;
+
+        #[cfg(feature = "verif")]
+        crate::verif::emit(crate::verif::Event::TxCtr {
+            session_id: self.id,
+            local_sess_id: self.local_sess_id,
+            ctr,
+        });
+
         ctr
     }
 
